@@ -13,6 +13,12 @@ def payload(spec):
     g = spec["gen"]
     if g == "zeros":
         return b"\0" * n
+    if g == "run":     # one byte value repeated: compresses > 1000:1, one raw block expands to megabytes
+        return bytes([spec.get("seed", 0) % 256]) * n
+    if g == "period":  # short period (3..40 bytes), position-sensitive inside the period
+        k = 3 + spec.get("seed", 0) % 38
+        unit = bytes((i * 89 + spec.get("seed", 0) * 7 + 1) % 256 for i in range(k))
+        return (unit * (n // k + 1))[:n]
     if g == "rep":  # highly compressible, period 7, still position-sensitive inside a period
         return bytes((i * 37 + spec.get("seed", 0)) % 7 + 65 for i in range(n))
     if g == "text":  # lines of varying length (for readline)
